@@ -97,8 +97,8 @@ fn check_labels(lbl: &ST, obs_std: &[PathObs], obs_cons: &[PathObs]) -> Vec<Stri
     bad
 }
 
-fn run_ctx<Ctx: Cx>(rep: &Report, ctxname: &'static str, n: usize, tap: bool, sigver: SigVer, form: KeyForm) -> (Census, u64, u64) {
-    let te = explore_terms::<Ctx>(n, Alphabet::Small, tap);
+fn run_ctx<Ctx: Cx>(rep: &Report, ctxname: &'static str, n: usize, alpha: Alphabet, tap: bool, sigver: SigVer, form: KeyForm) -> (Census, u64, u64) {
+    let te = explore_terms::<Ctx>(n, alpha, tap);
     let all: Vec<T> = te.all().map(|m| walk(m).relabel_distinct()).collect();
     let cen = all
         .par_iter()
@@ -256,13 +256,16 @@ pub fn run(tier: Tier) -> i32 {
         }
     }
     let n = tier.pick(5, 6);
-    rep.extra("bounds", json!({"nodes": n}));
+    rep.extra("bounds", json!({"nodes": n, "nodes_full_alphabet": n - 1}));
     let mut states = 0;
     let mut transitions = 0;
     for (cen, s, t) in [
-        run_ctx::<Segwitv0>(&rep, "segwitv0", n, false, SigVer::WitnessV0, KeyForm::Compressed),
-        run_ctx::<Legacy>(&rep, "legacy", n, false, SigVer::Base, KeyForm::Compressed),
-        run_ctx::<Tap>(&rep, "tap", n, true, SigVer::Tapscript, KeyForm::XOnly),
+        run_ctx::<Segwitv0>(&rep, "segwitv0", n, Alphabet::Small, false, SigVer::WitnessV0, KeyForm::Compressed),
+        run_ctx::<Legacy>(&rep, "legacy", n, Alphabet::Small, false, SigVer::Base, KeyForm::Compressed),
+        run_ctx::<Tap>(&rep, "tap", n, Alphabet::Small, true, SigVer::Tapscript, KeyForm::XOnly),
+        // full leaf alphabet (sortedmulti(_a), 2-of-3, the other hashes, time-based locks) one node less
+        run_ctx::<Segwitv0>(&rep, "segwitv0", n - 1, Alphabet::Full, false, SigVer::WitnessV0, KeyForm::Compressed),
+        run_ctx::<Tap>(&rep, "tap", n - 1, Alphabet::Full, true, SigVer::Tapscript, KeyForm::XOnly),
     ] {
         rep.merge_counts(&cen);
         states += s;
